@@ -15,7 +15,10 @@ LEAN_MODULE = 'Proofs.C12'
 THEOREMS = ['Fsic.C12.' + n for n in [
     'reindex_spec', 'first_occurrence', 'fill_default_table', 'default_by_kind', 'reflected_branches',
     'reflected_property_defaults', 'fill_precedence', 'model_defaults',
-    'reindex_preserves_meta', 'coerce_ne_keyError', 'reindex_strict_unknown', 'effective_strict', 'reindex_succeeds']]
+    'reindex_preserves_meta', 'coerce_ne_keyError', 'reindex_strict_unknown', 'effective_strict', 'reindex_succeeds',
+    'reindexWith_spec', 'reindex_kind_eq_list', 'reindex_lookup_error', 'reindex_spec_all', 'reindex_succeeds_all',
+    'numpy_lookup_answers', 'reindexWith_succeeds', 'reindex_list_no_keyError', 'reindex_keyError_cause',
+    'reindex_elements_from_old_or_fill', 'reindex_series_local', 'copy_loop_natural']]
 RULE = ('span pairs: for list / tuple / mixed-hashable spans every old span of length 1..3 over 3 labels (repeats '
         'included) x every new span of length 0..3 (thorough: 0..4) over those labels plus one absent label; ranges '
         'x ranges and integer lists; NumPy int/str arrays (unique old spans + duplicate-label old spans); pandas '
@@ -25,7 +28,9 @@ RULE = ('span pairs: for list / tuple / mixed-hashable spans every old span of l
         'for int) x object strict flag x strict argument, rotating deterministically; containers and partly solved '
         'models alternate; variable sets rotate over every NumPy kind: float64/int64/bool/<U2; int8-32 and uint8-64; '
         'float16/32, complex64/128, <U5, bytes S3; object (lists, dicts), datetime64, timedelta64; TracerMixin models '
-        '(Trace objects); variables named like class members (size, values, copy, eval, reindex, nbytes, NAMES, LAGS) and '
+        '(Trace objects); object series holding an equal-length sequence in every period (tuples, one-item lists, 1-D arrays, '
+        'strings); integer values beyond 2**53 and at the int32/uint32/int64/uint64 limits, float32 values not representable '
+        'in float16 (kept values compared exactly); variables named like class members (size, values, copy, eval, reindex, nbytes, NAMES, LAGS) and '
         'underscore twins (Tw / _Tw / __Tw). The new span is given in every supported form (range, list, tuple, ndarray '
         'int/str/float, pd.Index, PeriodIndex annual/quarterly, DatetimeIndex); the result\'s span must be of the same type / '
         'dtype / freq and answer label access (elements, pandas string spellings, partial strings, slices) as a fresh '
@@ -47,37 +52,38 @@ ASSUMPTIONS = ['every series has the length of the span (C09 invariant)',
 META = {
     "text": "Reflected probe table (Generated.reindexProbes: what the imported reindex puts into a new period, per dtype of a 20-dtype catalogue) with theorems quantifying over it: the model's if/elif branch function equals the code's for bool / every int and uint width / timedelta64 / <U / float64, and the code's defaults equal the property's table (False, 0, NaN, '') for every bool/int/uint/float/complex/<U dtype. Theorems for every object (any variables, dtypes, values), every old/new span (permuted, disjoint, repeated labels; first occurrence = list.index) and every fill_value / keyword fills / strict combination: each new position holds the old value at the first occurrence of its label, else coerce(dtype, keyword fill if given else fill_value) with None -> NaN/0/False/''; models default status to '-' and iterations to -1 unless overridden; names, order, dtypes, strict flag and all other attributes carry over; unknown fill keywords are rejected with KeyError exactly under effective strictness (strict=None -> the object's flag); reindex succeeds on well-formed objects. The model is tied to VectorContainer.reindex / BaseModel.reindex by exact comparison of the full reindexed state (values, dtypes, order, exception class) on all generated span pairs.",
     "design_ref": "DESIGN.md §5 M6, §6 C12, §7 row 19",
-    "note": "Former findings reindex-object-elements-shared (fixed in /repo 9d7efdc) and reindex-bytes-default (fixed 9692991) keep their oracle keys: a return of either defect is a new VIOLATION. Partial: 'original unchanged / shares nothing' is not a theorem (the functional model has no aliasing; heap model belongs to C11) - checked by the oracle on the real code (ids, np.shares_memory, mutation probes). pandas get_loc / in are inputs for pandas spans; the pandas mixin (Series.reindex) is compared with the specification by the oracle only. Trusted: Lean kernel, axioms propext/Classical.choice/Quot.sound, the correspondence harness. The mixin with default arguments is held by the oracle to the same dtype default table as the base class (NaN, 0, False, '' - proved for the base class in fill_default_table; the mixin itself is not modelled). Former findings pandas-mixin-int/bool/str-default (fixed in /repo 7a4b423) and reindex-same-span-object-shared (fixed 4b4abc7) keep their oracle keys, so a regression is a new VIOLATION.",
+    "note": "Statements hold for every lookup of the model: list-like and NumPy spans (reindex_spec_all, reindex_succeeds_all, reindex_keyError_cause, reindex_lookup_error) and relative to a given position map (reindexWith_spec / reindexWith_succeeds: pandas, where in/get_loc are inputs). 'Original unchanged' holds by construction of the pure model (not a theorem); proved instead: the result is built only from the old values and the fill (reindex_elements_from_old_or_fill, reindex_series_local, copy_loop_natural). 'Shares nothing' needs object identity, which the model lacks: oracle only. Former findings reindex-object-elements-shared (fixed in /repo 9d7efdc) and reindex-bytes-default (fixed 9692991) keep their oracle keys: a return of either defect is a new VIOLATION. Partial: 'original unchanged / shares nothing' is not a theorem (the functional model has no aliasing; heap model belongs to C11) - checked by the oracle on the real code (ids, np.shares_memory, mutation probes). pandas get_loc / in are inputs for pandas spans; the pandas mixin (Series.reindex) is compared with the specification by the oracle only. Trusted: Lean kernel, axioms propext/Classical.choice/Quot.sound, the correspondence harness. The mixin with default arguments is held by the oracle to the same dtype default table as the base class (NaN, 0, False, '' - proved for the base class in fill_default_table; the mixin itself is not modelled). Former findings pandas-mixin-int/bool/str-default (fixed in /repo 7a4b423) and reindex-same-span-object-shared (fixed 4b4abc7) keep their oracle keys, so a regression is a new VIOLATION.",
     "technique": "Lean 4 proof (induction over the copy loop and the variable list) + exhaustive differential correspondence + property oracle with sharing probes"
 }
 
 VALUES = {
     'F': [1.5, float('nan'), -2.0, 4.25, 0.5, 8.0],
-    'I': [3, -1, 4, 1, -5, 9],
+    'I': [3, -1, 2 ** 53 + 1, 1, -(2 ** 53) - 1, 2 ** 62 + 1],        # not representable as float64
     'B': [True, False, True, True, False, True],
     'S': ['ab', 'c', 'de', 'f', 'gh', 'i'],
     # every other NumPy kind the code can meet
-    'I8': [3, -1, 4, 1, -5, 9], 'I16': [300, -1, 4, 1, -5, 9], 'I32': [70000, -1, 4, 1, -5, 9],
-    'U8': [3, 200, 4, 1, 5, 9], 'U16': [3, 60000, 4, 1, 5, 9], 'U32': [3, 4000000000, 4, 1, 5, 9],
-    'U64': [3, 2 ** 63 + 5, 4, 1, 5, 9],
-    'F16': [1.5, float('nan'), -2.0, 4.25, 0.5, 8.0], 'F32': [1.5, float('nan'), -2.0, 4.25, 0.5, 8.0],
+    'I8': [3, -1, 4, 1, -5, 9], 'I16': [300, -1, 4, 1, -5, 9], 'I32': [2 ** 31 - 1, -(2 ** 31), 16777217, 1, -5, 9],
+    'U8': [3, 200, 4, 1, 5, 9], 'U16': [3, 60000, 4, 1, 5, 9], 'U32': [3, 2 ** 32 - 1, 16777217, 1, 5, 9],
+    'U64': [3, 2 ** 63 + 5, 2 ** 64 - 1, 2 ** 53 + 1, 5, 9],
+    'F16': [1.5, float('nan'), -2.0, 4.25, 0.5, 8.0], 'F32': [1.5, float('nan'), 100000.25, 1e-10, 0.1, 3.0e38],   # not representable as float16
     'C64': [1.5 + 2j, complex('nan'), -2.0, 4.25j, 0.5, 8.0], 'C128': [1.5 + 2j, complex('nan'), -2.0, 4.25j, 0.5, 8.0],
     'S5': ['abcde', 'c', '', 'f', 'gh', 'i'],
     'Y3': [b'abc', b'c', b'', b'f', b'gh', b'i'],
     'O': None,     # fresh lists per build: see build()
+    'OT': None, 'OL': None, 'OA': None, 'OS': None,   # object series of equal-length sequences in EVERY period
     'D': ['2000-01-01', 'NaT', '2000-01-03', '1999-12-31', '2000-02-01', '2001-01-01'],
     'TD': [1, -2, 3, 0, 5, 7],
     # variables named like members of the classes, and underscore twins (`Tw` is stored under '_Tw', which is also
     # the NAME of the variable `_Tw`): legal names that only a careless getattr(self, name) confuses
     'size': [1.5, 2.5, -2.0, 4.25, 0.5, 8.0], 'values': [3, -1, 4, 1, -5, 9], 'copy': [0.5, 1.5, 2.5, 3.5, 4.5, 5.5],
     'eval': [True, False, True, True, False, True], 'reindex': ['ab', 'c', 'de', 'f', 'gh', 'i'],
-    'nbytes': [7, 8, 9, 10, 11, 12], 'NAMES': [9.0, 8.0, 7.0, 6.0, 5.0, 4.0], 'LAGS': [1, 2, 3, 4, 5, 6],
+    'nbytes': [7, 8, 9, 10, 11, 12], 'NAMES': [9.0, 8.0, 7.0, 6.0, 5.0, 4.0], 'LAGS': [1, 2 ** 53 + 1, 3, 4, 5, 6],
     'Tw': [10.0, 11.0, 12.0, 13.0, 14.0, 15.0], '_Tw': [-1.0, -2.0, -3.0, -4.0, -5.0, -6.0],
     '__Tw': [100, 200, 300, 400, 500, 600],
 }
 DTYPES = {'F': float, 'I': int, 'B': bool, 'S': '<U2', 'I8': np.int8, 'I16': np.int16, 'I32': np.int32,
           'U8': np.uint8, 'U16': np.uint16, 'U32': np.uint32, 'U64': np.uint64, 'F16': np.float16, 'F32': np.float32,
-          'C64': np.complex64, 'C128': np.complex128, 'S5': '<U5', 'Y3': 'S3', 'O': object, 'D': 'datetime64[D]',
+          'C64': np.complex64, 'C128': np.complex128, 'S5': '<U5', 'Y3': 'S3', 'O': object, 'OT': object, 'OL': object, 'OA': object, 'OS': object, 'D': 'datetime64[D]',
           'TD': 'timedelta64[D]', 'size': float, 'values': int, 'copy': float, 'eval': bool, 'reindex': '<U2',
           'nbytes': np.int32, 'NAMES': float, 'LAGS': int, 'Tw': float, '_Tw': float, '__Tw': int}
 VARSETS = [
@@ -87,17 +93,25 @@ VARSETS = [
     ['O', 'D', 'TD', 'I32', 'S5'],
     ['size', 'values', 'copy', 'eval', 'reindex', 'nbytes', 'NAMES', 'LAGS'],
     ['Tw', '_Tw', '__Tw', 'size', 'F'],
+    ['OT', 'OL', 'OA', 'OS', 'I'],
 ]
 
 
 def add_vars(obj, n, varset):
+    with warnings.catch_warnings():
+        warnings.simplefilter('ignore')
+        _add_vars(obj, n, varset)
+
+
+def _add_vars(obj, n, varset):
     for k in VARSETS[varset]:
-        if k == 'O':
+        if k in ('O', 'OT', 'OL', 'OA', 'OS'):
             vals = np.empty(n, dtype=object)
             for i in range(n):
-                vals[i] = [i, 'x'] if i % 3 != 2 else {'k': i}
+                vals[i] = {'O': [i, 'x'] if i % 3 != 2 else {'k': i}, 'OT': (float(i), i + 0.5), 'OL': [i],
+                           'OA': np.array([i, i + 1.5]), 'OS': 'ab' if i % 2 else 'cd'}[k]
             obj.add_variable(k, None, dtype=object)
-            obj.__dict__['_O'][:] = vals
+            obj.__dict__['_' + k][:] = vals
         elif k == 'TD':
             obj.add_variable(k, np.array(VALUES[k][:n], dtype='timedelta64[D]'), dtype=DTYPES[k])
         elif k == 'D':
@@ -170,6 +184,7 @@ CONFIGS = [
     {'I8': 300, 'F16': 1.5},
     {'U8': -1, 'C128': True},
     {'fill_value': 3, 'I16': None, 'F32': None, 'O': None},
+    {'OT': None, 'OL': 7, 'OS': 'zz', 'I': 2 ** 53 + 3},
     {'size': 9.5, 'values': 4, 'eval': True, 'reindex': 'zz', 'NAMES': 0.25, '_Tw': 1.25, 'Tw': 2.5, '__Tw': 7},
 ]
 STRICT_ARGS = [None, None, True, False]
@@ -603,8 +618,14 @@ def span_form_oracle(case, r, new, names, rep, pre):
     # label access on the result behaves as on a fresh object built over the requested span
     nm = names[0]
     import copy as _copy
-    fresh = VectorContainer(_copy.deepcopy(new))
-    fresh.add_variable(nm, r.__dict__['_' + nm].copy(), dtype=r.__dict__['_' + nm].dtype)
+    if r.__dict__['_' + nm].shape != (len(list(new)),):
+        return                                   # a malformed series is reported by the per-variable checks
+    try:
+        fresh = VectorContainer(_copy.deepcopy(new))
+        fresh.add_variable(nm, 0, dtype=r.__dict__['_' + nm].dtype)
+        fresh.__dict__['_' + nm][:] = r.__dict__['_' + nm]
+    except Exception:  # noqa: BLE001
+        return
     for lab in label_spellings(case['span_kind'], new):
         t0, v0 = access(fresh, nm, lab)
         t1, v1 = access(r, nm, lab)
